@@ -361,6 +361,12 @@ def _f_partial_cmp(eng, st, args, dty, callee, m):
     return VEnum(OPTION, z3.If(unord, bv(0, 8), bv(1, 8)), {0: (), 1: (o,)})
 
 
+def _mul_ok(a, b):
+    from engine import mul_no_overflow
+
+    return mul_no_overflow(a, b, False)
+
+
 _INTW = {"u8": 8, "u16": 16, "u32": 32, "u64": 64, "u128": 128, "usize": 64, "i8": 8, "i16": 16, "i32": 32, "i64": 64, "i128": 128, "isize": 64}
 
 
@@ -377,7 +383,7 @@ def _uint_ops(eng, st, args, dty, callee, m):
         s = a + b
         return z3.If(z3.ULT(s, a), bv((1 << w) - 1, w), s)
     if op == "saturating_mul":
-        return z3.If(z3.BVMulNoOverflow(a, b, False), a * b, bv((1 << w) - 1, w))
+        return z3.If(_mul_ok(a, b), a * b, bv((1 << w) - 1, w))
     if op == "wrapping_add":
         return a + b
     if op == "wrapping_sub":
@@ -388,7 +394,7 @@ def _uint_ops(eng, st, args, dty, callee, m):
     if op == "checked_sub":
         return option(z3.UGE(a, b), a - b)
     if op == "checked_mul":
-        return option(z3.BVMulNoOverflow(a, b, False), a * b)
+        return option(_mul_ok(a, b), a * b)
     if op == "min":
         return z3.If(z3.ULE(a, b), a, b)
     if op == "max":
@@ -747,7 +753,7 @@ def _panic(eng, st, args, dty, callee, m):
     return None
 
 
-@summary(r"^(core|std)::fmt::(Arguments|rt::Argument)::<?.*$|^std::fmt::Arguments::<'_>::.*$|^core::fmt::rt::.*$", "fmt::Arguments construction: opaque")
+@summary(r"^(core|std)::fmt::(Arguments|rt::Argument)::<?.*$|^(std::fmt::|core::fmt::)?Arguments::<'_>::.*$|^core::fmt::rt::.*$|^(core::fmt::rt::)?Argument::<'_>::.*$", "fmt::Arguments construction: opaque")
 def _fmt_args(eng, st, args, dty, callee, m):
     return VOpaque("fmt::Arguments")
 
